@@ -10,7 +10,10 @@ import tempfile
 import time
 import hashlib
 import concurrent.futures as cf
+import itertools
 import z3
+
+_seq = itertools.count()
 
 SOLVERS = {
     "z3-4.8.12": ["/usr/bin/z3", "-smt2"],
@@ -93,7 +96,7 @@ def check_text(txt, budget, order=ORDER, all_solvers=False, workdir=None):
     """returns dict(status=unsat|sat|unknown|conflict, backend, time, outputs)"""
     d = workdir or tempfile.gettempdir()
     h = hashlib.sha1(txt.encode()).hexdigest()[:16]
-    path = os.path.join(d, f"pyvc_{os.getpid()}_{h}.smt2")
+    path = os.path.join(d, f"pyvc_{os.getpid()}_{h}_{next(_seq)}.smt2")
     with open(path, "w") as fh:
         fh.write(txt)
     res = {"status": "unknown", "backend": None, "time": 0.0, "outputs": {}, "answers": {}}
